@@ -3,7 +3,7 @@
    proofs/C13_Total.v. *)
 From Lib Require Import Bytes Cid.
 From Model Require Import C13_DagCbor C13_IpldSchema.
-From Proofs Require Import C13_DagCbor C13_IpldSchema C13_Total.
+From Proofs Require Import C13_DagCbor C13_IpldSchema C13_Total C13_Output.
 Open Scope N_scope.
 
 (* ---- value <-> IPLD node (bindnode against schema.ipldsch) ---- *)
@@ -103,3 +103,37 @@ Theorem decode_total :
     match typed_load_chunk b with Ok _ => True | Err c => c <> EOutOfFuel | Panic _ => False end.
 Proof. exact decode_total_proved. Qed.
 Print Assumptions decode_total.
+
+(* ---- what the decoders return, for ALL inputs ---- *)
+
+(* Premises: the input is a byte string (values < 256) of at most 33554432 bytes (the real
+   decoder's allocation budget refuses structure beyond about 10 MiB anyway).
+   Whatever the generic decode returns then has: byte contents, links that cid.Cast accepts,
+   ints in the int64/uint64 range (wfl); total weight -- every string, key, link and list
+   element accounted for -- at most the input length (wt), so no string or list is longer
+   than the input; distinct keys in every map.  If it holds no float (float VALUES are not
+   modelled) it is a wf_node and re-encodes to a block that decodes to it up to map order.
+   NOT guaranteed by the lenient decoder: canonical form (key order, minimal heads). *)
+Theorem decode_output_wf :
+  forall (b : bytes) (n : node),
+    wf_bytes b = true -> blen b <= MaxStr -> decode b = Ok n ->
+    wfl n = true /\ (wt n <= length b)%nat /\ has_dup_deep n = false /\
+    (has_float n = false -> wf_node n = true /\ decode (encode n) = Ok (norm n)).
+Proof. exact decode_output_wf_proved. Qed.
+Print Assumptions decode_output_wf.
+
+(* "Decoding arbitrary bytes returns an error or a value that can be re-encoded": for ALL
+   inputs (same premises) a value the typed load returns -- including one assembled from
+   repeated fields, non-minimal heads, indefinite lengths, dropped tags -- is well-formed,
+   and its encoding gives it back through the typed load and through generic load + unwrap.
+   No shape is excluded: the schema has no float or int field, so those never reach a value. *)
+Theorem typed_load_output_reencodes :
+  forall b : bytes, wf_bytes b = true -> blen b <= MaxStr ->
+    (forall a, typed_load_ad b = Ok a ->
+       wf_ad a = true /\ typed_load_ad (ad_encode a) = Ok a /\
+       (n <- generic_load (ad_encode a) ;; unwrap_ad n) = Ok a) /\
+    (forall c, typed_load_chunk b = Ok c ->
+       wf_chunk c = true /\ typed_load_chunk (chunk_encode c) = Ok c /\
+       (n <- generic_load (chunk_encode c) ;; unwrap_chunk n) = Ok c).
+Proof. exact typed_load_output_reencodes_proved. Qed.
+Print Assumptions typed_load_output_reencodes.
